@@ -578,6 +578,9 @@ func one(c *core.Case, h *handshake, f fault) {
 	c.Count("negotiate_steps_run", r.log.Negotiated())
 	if len(failed) > 0 {
 		c.Count("step_errors_logged", len(failed))
+		for _, rec := range failed {
+			c.Count("step_errors_logged:"+rec.Kind, 1)
+		}
 	}
 	if r.actionNote != "" {
 		c.Notef("%s", r.actionNote)
@@ -767,7 +770,7 @@ func Prop() *core.Prop {
 		Exhaustive: func(string) bool { return true },
 		Require: []string{"golden_ok", "golden_within_bounds", "fault_runs:eof", "fault_runs:wrbreak", "fault_runs:rdfail", "fault_runs:wrfail",
 			"fault_runs:cancel-silent", "fault_runs:cancel-live", "fault_runs:cancel-blocked", "cancellations_issued", "cancellations_that_reached_the_deadlines",
-			"step_errors_logged", "failed_steps_with_mask", "peer_gave_up", "failed_closed"},
+			"step_errors_logged", "step_errors_logged:negotiate", "step_errors_logged:list", "step_errors_logged:parse", "failed_steps_with_mask", "peer_gave_up", "failed_closed"},
 		Witnesses: map[string]func(*core.Case){
 			"swallow:voluntary:negotiate":  witness("volfail-init", "golden", 0),
 			"outlive:cancel:before-op":     witness("plain-init", "cancel-silent", 1),
